@@ -36,7 +36,8 @@ try:
         sigs = [l.split("signature=")[1].split()[0] for l in r.stdout.splitlines() if l.startswith("VIOLATION") and "signature=" in l]
         verdict = {0: "MISSED (held)", 1: "CAUGHT", 3: "INCONCLUSIVE"}.get(r.returncode, f"rc={r.returncode}")
         print(f"{os.path.basename(d)} {c} {a.tier}: {verdict} {len(sigs)} signatures: {sigs[:4]}")
-        results[c] = {"tier": a.tier, "outcome": verdict, "signatures": sigs[:8]}
+        vs = os.environ.get("VERIF_SEED") or "0"
+        results[c if vs == "0" else f"{c}@seed{vs}"] = {"tier": a.tier, "outcome": verdict, "signatures": sigs[:8]}
         if r.returncode == 3:
             print("   ", [l for l in r.stdout.splitlines() if l.startswith("INCONCLUSIVE")][:3])
     rp = os.path.join(d, "result.json")
